@@ -177,7 +177,17 @@ func genC18() {
 	}
 	var writes []string
 	ast.Inspect(cah.Body, func(n ast.Node) bool {
-		if c, ok := n.(*ast.CallExpr); ok && strings.HasSuffix(exprString(c.Fun), ".Write") && len(c.Args) == 1 {
+		c, ok := n.(*ast.CallExpr)
+		// buf = append(buf, x...) builds the same preimage as Write(x)
+		if ok && exprString(c.Fun) == "append" && len(c.Args) == 2 && c.Ellipsis.IsValid() {
+			for i, p := range cahParams {
+				if exprString(c.Args[1]) == p {
+					writes = append(writes, fmt.Sprint(i))
+				}
+			}
+			return true
+		}
+		if ok && strings.HasSuffix(exprString(c.Fun), ".Write") && len(c.Args) == 1 {
 			w := "?"
 			for i, p := range cahParams {
 				if exprString(c.Args[0]) == p {
@@ -196,7 +206,7 @@ func genC18() {
 	l.p("/-- `func:var` for every reference to a package-level variable of package account in the functions reachable")
 	l.p("from CommitAccount / AuthChallenge / AuthHash -/")
 	l.p("def authPkgVarRefs : List String := %s", leanStrList(c18PkgVarRefs(acct, []string{"CommitAccount", "AuthChallenge", "AuthHash"})))
-	l.p("def concatAndHashIsSha256 : Bool := %s", c18Bool(strings.Contains(c18NodeString(cah.Body), "sha256.New()")))
+	l.p("def concatAndHashIsSha256 : Bool := %s", c18Bool(strings.Contains(c18NodeString(cah.Body), "sha256.New()") || strings.Contains(c18NodeString(cah.Body), "sha256.Sum256(")))
 
 	// ---- auctioneer/client.go ----
 	auct := pkgFiles("auctioneer")
